@@ -2,10 +2,13 @@ package checks
 
 import (
 	"bytes"
+	"encoding/json"
 	"fmt"
 	"math"
 	"reflect"
 	"runtime/debug"
+	"sort"
+	"strings"
 	"testing"
 	"time"
 	"unsafe"
@@ -37,6 +40,9 @@ type c06Case struct {
 	GoType string        `json:"go_type,omitempty"`
 	Data   []byte        `json:"data"`
 	What   string        `json:"what"` // description of the mutation, for the reader
+	// Projections: the file is also read into the target with every other top-level
+	// field removed and into a struct with no fields at all (everything is skipped).
+	Projections bool `json:"projections,omitempty"`
 	// Big describes a file of more than a megabyte with one altered length; Data is
 	// built from it on both sides of the worker pipe instead of being transported.
 	Big *c06Big `json:"big,omitempty"`
@@ -186,16 +192,28 @@ func runC06InWorker(c c06Case) error {
 	}
 	switch c.Entry {
 	case "file":
-		typ := spec.Build(c.Target)
-		n := 0
-		_ = avro.ReadFile(bytes.NewReader(c.Data), reflect.New(typ).Elem().Interface(), func(val unsafe.Pointer, rb *avro.ResourceBank) error {
-			n++
-			if n > 1<<22 {
-				return fmt.Errorf("VERIF-INCONCLUSIVE more than 4M records delivered")
+		targets := []spec.TypeSpec{c.Target}
+		if c.Projections {
+			half := spec.TypeSpec{K: "struct"}
+			for i, f := range c.Target.Fields {
+				if i%2 == 1 {
+					half.Fields = append(half.Fields, f)
+				}
 			}
-			rb.Close()
-			return nil
-		})
+			targets = append(targets, half, spec.TypeSpec{K: "struct"})
+		}
+		for _, ts := range targets {
+			typ := spec.Build(ts)
+			n := 0
+			_ = avro.ReadFile(bytes.NewReader(c.Data), reflect.New(typ).Elem().Interface(), func(val unsafe.Pointer, rb *avro.ResourceBank) error {
+				n++
+				if n > 1<<22 {
+					return fmt.Errorf("VERIF-INCONCLUSIVE more than 4M records delivered")
+				}
+				rb.Close()
+				return nil
+			})
+		}
 	case "body", "skip":
 		lib, err := avro.SchemaFromString(ref.Render(c.Schema, nil))
 		if err != nil {
@@ -480,6 +498,29 @@ func drawC06(t *rapid.T) c06Case {
 		c.Data, c.What = file, "record "+fmt.Sprint(hit)+" of file: "+what
 		return c
 	}
+	if gen.Uniform(t, "schemaEdit", 4) == 0 {
+		// the data stays as it is, one attribute of the schema document in the header is
+		// altered (a size, a type name, an items / values / fields / symbols member ...):
+		// whatever the reader makes of the document, it must not trust it with memory
+		// or with its read position, whether the fields are decoded or skipped
+		doc, what := editSchemaDoc(t, ref.Render(w.Schema, nil))
+		var blocks []ref.Block
+		for _, d := range w.Datums {
+			body, err := enc.Encode(nil, w.Schema, d)
+			if err != nil {
+				panic(err)
+			}
+			blocks = append(blocks, ref.Block{Count: 1, Payload: body})
+		}
+		fs := ref.FileSpec{Schema: []byte(doc), Codec: w.Codec, Blocks: blocks}
+		copy(fs.Sync[:], w.Sync)
+		file, _, err := ref.WriteFile(fs)
+		if err != nil {
+			panic(err)
+		}
+		c.Data, c.What, c.Projections = file, "schema document in the header edited: "+what, true
+		return c
+	}
 	file, lay, _, err := buildWireFile(w)
 	if err != nil {
 		panic(err)
@@ -574,6 +615,84 @@ func drawC06(t *rapid.T) c06Case {
 		return spans
 	})
 	return c
+}
+
+var hostileJSON = []string{`-1`, `-8`, `0`, `1`, `1e9`, `2147483648`, `9223372036854775807`, `-9223372036854775808`, `1.5`, `"3"`, `null`, `true`,
+	`[]`, `{}`, `"long"`, `"string"`, `"bytes"`, `"null"`, `"boolean"`, `"double"`, `"nosuch"`, `["null","long"]`, `{"type":"array","items":"long"}`,
+	`{"type":"map","values":"string"}`, `{"type":"fixed","name":"hx","size":-2}`, `{"type":"fixed","name":"hy","size":4611686018427387904}`, `{"type":"record","name":"hz","fields":[]}`}
+
+// editSchemaDoc alters one member of one object (or one element of one array) of a
+// schema document: the value is replaced by a hostile literal, or the member removed.
+func editSchemaDoc(t *rapid.T, doc string) (string, string) {
+	var root interface{}
+	dec := json.NewDecoder(strings.NewReader(doc))
+	dec.UseNumber()
+	if err := dec.Decode(&root); err != nil {
+		return doc, "unparsable (unchanged)"
+	}
+	// collect the editable sites
+	type site struct {
+		obj  map[string]interface{}
+		key  string
+		arr  []interface{}
+		idx  int
+		path string
+	}
+	var sites []site
+	var walk func(v interface{}, path string)
+	walk = func(v interface{}, path string) {
+		switch x := v.(type) {
+		case map[string]interface{}:
+			keys := make([]string, 0, len(x))
+			for k := range x {
+				keys = append(keys, k)
+			}
+			sort.Strings(keys)
+			for _, k := range keys {
+				sites = append(sites, site{obj: x, key: k, path: path + "." + k})
+				walk(x[k], path+"."+k)
+			}
+		case []interface{}:
+			for i := range x {
+				sites = append(sites, site{arr: x, idx: i, path: fmt.Sprintf("%s[%d]", path, i)})
+				walk(x[i], fmt.Sprintf("%s[%d]", path, i))
+			}
+		}
+	}
+	walk(root, "$")
+	if len(sites) == 0 {
+		return doc, "no site (unchanged)"
+	}
+	// sizes first: they are the numbers a reader is most tempted to trust
+	var sizes []int
+	for i, st := range sites {
+		if st.key == "size" {
+			sizes = append(sizes, i)
+		}
+	}
+	si := gen.Uniform(t, "editSite", len(sites))
+	if len(sizes) > 0 && gen.Uniform(t, "editSize", 2) == 0 {
+		si = sizes[gen.Uniform(t, "editSizeSite", len(sizes))]
+	}
+	st := sites[si]
+	var what string
+	if st.obj != nil && gen.Uniform(t, "editRemove", 5) == 0 {
+		delete(st.obj, st.key)
+		what = st.path + " removed"
+	} else {
+		lit := hostileJSON[gen.Uniform(t, "editLiteral", len(hostileJSON))]
+		if st.obj != nil {
+			st.obj[st.key] = json.RawMessage(lit)
+		} else {
+			st.arr[st.idx] = json.RawMessage(lit)
+		}
+		what = st.path + " := " + lit
+	}
+	out, err := json.Marshal(root)
+	if err != nil {
+		return doc, "unmarshalable (unchanged)"
+	}
+	return string(out), what
 }
 
 // mutateBytes applies one drawn mutation to a valid encoding.
